@@ -355,7 +355,7 @@ func EntityCases(thorough bool) []*Case {
 		return nil
 	}
 	dataSets := [][]*Field{{}, {fld("name", T(TString))}, {fld("name", T(TString)), fld("count", T(TInt32)), fld("tags", ArrayOf(T(TString)))}}
-	statusSets := [][]EnumOpt{{{Name: "ACTIVE"}}, {{Name: "ACTIVE"}, {Name: "INACTIVE", Desc: "not active"}}, {{Name: "ACTIVE"}, {Name: "REVIEW_UNSPECIFIED"}, {Name: "CLOSED"}}}
+	statusSets := [][]EnumOpt{{{Name: "ACTIVE"}}, {{Name: "ACTIVE"}, {Name: "INACTIVE", Desc: "not active"}}, {{Name: "ACTIVE"}, {Name: "REVIEW_UNSPECIFIED"}, {Name: "CLOSED"}}, {{Name: "ACTIVE"}, {Name: "ON_HOLD"}, {Name: "PHASE2"}}}
 	eventSets := [][]*Event{{}, {{Name: "Create", Fields: []*Field{fld("name", T(TString))}}}, {{Name: "Create", Fields: []*Field{fld("name", T(TString)), fld("count", T(TInt32))}}, {Name: "Archive"}, {Name: "ReOpen", Fields: []*Field{fld("why", T(TString))}}}}
 	summarySets := [][]*Summary{{}, {{Fields: []*Field{fld("name", T(TString))}}}, {{Fields: []*Field{fld("name", T(TString))}}, {Name: "Lite", Fields: []*Field{fld("x", T(TString))}}, {Name: "Wide", Fields: nil}}}
 	mkCommands := func(i int, name string) []*Service {
@@ -408,7 +408,7 @@ func EntityCases(thorough bool) []*Case {
 			out = append(out, c)
 		}
 	}
-	lim := []int{6, 9, 3, 3, 3, 3, 4, 6}
+	lim := []int{6, 9, 3, 4, 3, 3, 4, 6}
 	get := func(d *dims, i int) *int {
 		return []*int{&d.name, &d.keys, &d.data, &d.statuses, &d.events, &d.summaries, &d.commands, &d.query}[i]
 	}
